@@ -91,7 +91,7 @@ pub fn read_script<R: Read>(r: &mut R, reads: &[usize], cyclic: bool, max_calls:
             Ok(n) => {
                 out.extend_from_slice(&buf[..n]);
                 calls.push(json!({"k": k, "n": n}));
-                if n == 0 && k > 0 {
+                if n == 0 && k > 0 && cyclic {
                     break;
                 }
             }
